@@ -400,6 +400,9 @@ func (cr *ChunkReader) parseChunkHeaderBytes(header []byte, l *int) (int64, stri
 	if err != nil {
 		return 0, "", 0, errInvalidChunkFormat
 	}
+	if chunkSize < 0 {
+		return 0, "", 0, errInvalidChunkFormat
+	}
 
 	// read the chunk signature
 	err = readAndSkip(rdr, 'c', 'h', 'u', 'n', 'k', '-', 's', 'i', 'g', 'n', 'a', 't', 'u', 'r', 'e', '=')
